@@ -1103,11 +1103,14 @@ func (r *runner) trimmerProject(trimmer, dir string, idx int) error {
 	r.out.Count("trimmer:runs")
 	seen := map[*parser.Thrift]bool{}
 	var walk func(a *parser.Thrift)
+	nFail := 0
 	fail := func(rel, class, detail, written string) {
+		nFail++
 		r.out.Count("oracle-fail:trimmer/" + class)
-		// the same file in-process: if the library round trip fails on it too, report that (shrunk, canonical key)
-		if p, ok := progs[rel]; ok {
-			if v := checkSrc(files[rel], false); v.Class != "" && v.Class != "gen-reject" {
+		// the same file in-process: if the library round trip fails on it in the same way, report that
+		// (shrunk, canonical key); failures specific to the binary are reported as such
+		if p, ok := progs[rel]; ok && (class == "reparse-error" || strings.HasPrefix(class, "diff:")) {
+			if v := checkSrc(files[rel], false); v.Class != "" && v.Class != "gen-reject" && strings.HasPrefix(v.Class, strings.SplitN(class, ":", 2)[0]) {
 				r.report(p, v, false)
 				return
 			}
@@ -1152,8 +1155,11 @@ func (r *runner) trimmerProject(trimmer, dir string, idx int) error {
 	}
 	walk(ast)
 	// the written tree as a whole must be accepted again
-	if back, err := parser.ParseFile(filepath.Join(outDir, "main.thrift"), nil, true); err == nil {
-		if !accepted(back) {
+	if nFail == 0 {
+		back, err := parser.ParseFile(filepath.Join(outDir, "main.thrift"), nil, true)
+		if err != nil {
+			fail("main.thrift", "project-reparse-error", firstLine(err.Error()), "")
+		} else if !accepted(back) {
 			fail("main.thrift", "sem-reject", "written project rejected by CheckAll/ResolveSymbols", "")
 		}
 	}
